@@ -17,6 +17,15 @@ HANDWRITTEN_DEPTH = 3      # hand-written permutations for every content reachab
 
 
 def lang_spec(name):
+    if name == 'CAPDEF':
+        # defenses whose names start with a capital letter (one of them differs from a built-in attribute only by case)
+        return langs.spec([
+            langs.asset('Host', steps=[langs.step('Hardened', 'defense', ttc=langs.fn('Disabled'), reaches=[langs.S('access')]),
+                                       langs.step('patched', 'defense', reaches=[langs.S('access')]),
+                                       langs.step('Name', 'defense', ttc=langs.fn('Enabled'), reaches=[langs.S('access')]),
+                                       langs.step('access', 'or')]),
+            langs.asset('Server', sup='Host', steps=[langs.step('Locked', 'defense', reaches=[langs.S('access')])]),
+        ], [langs.assoc('Conn', 'Host', 'clients', '*', '*', 'servers', 'Server')], lang_id='org.verif.capdef')
     if name in ('CLSsamepair', 'CLSnoassoc', 'CLSswapfields', 'CLSunderscore', 'CLSjoined'):
         return families.cls_langs()[name[3:]]
     if name == 'CLSopp':
@@ -82,6 +91,8 @@ def extra_plain_models():
                                          ('?Link', 'fronts', ['wa'], 'backing', ['d']),
                                          ('?Link', 'hosts', ['h'], 'apps', ['a1', 'a2']),
                                          ('Link_Host_App', 'peerOf', ['a1'], 'peer', ['a2'])])))
+    out.append(('CAPDEF', PlainModel([('web', 'Host'), ('db', 'Server'), ('h2', 'Host')], [('Conn', 'clients', ['web', 'h2'], 'servers', ['db'])]),
+                {'web': {'Hardened': 1.0, 'Name': 0.25, 'patched': 0.5}, 'db': {'Locked': 1.0, 'Hardened': 0.5, 'Name': 0.0}}))
     out.append(('CLSnoassoc', PlainModel([('a1', 'Aa'), ('b1', 'Bb'), ('a2', 'Aa')], [])))
     out.append(('OPS2', PlainModel([('c1', 'Crate'), ('c2', 'Crate'), ('i1', 'Item'), ('i2', 'Item')],
                                    [('Part', 'whole', ['c1'], 'parts', ['c2', 'i1']), ('Contain', 'container', ['c2'], 'inside', ['i1', 'i2']),
